@@ -13,6 +13,8 @@ package ixbuf
 //	merge-unsorted       result keys not strictly increasing / empty chunk / Check() panics
 //	merge-size           size field != number of slots
 //	merge-input-mutated  an input buffer differs from the snapshot taken before Merge
+//	merge-result-mutated the result of an EARLIER Merge differs from its snapshot after a later Merge that
+//	                     re-uses some of the same inputs (persistence / aliasing between result and inputs)
 //	merge-panic          Merge panicked on valid input
 
 import (
@@ -23,6 +25,7 @@ import (
 	"sort"
 	"strings"
 	"testing"
+	"unsafe"
 
 	lib "github.com/apmckinlay/gsuneido/util/zzverif"
 )
@@ -254,6 +257,67 @@ func vKeyOf(mode string, r *rand.Rand, j, i int) string {
 	return fmt.Sprintf("k%02d", r.Intn(70))
 }
 
+// vAliased returns the index of an input buffer such that a chunk of res extends into the SPARE CAPACITY
+// of one of its chunks (memory behind the input chunk's length), or -1. Sharing the live part of an
+// input chunk (pass-through of a whole chunk or of its remaining suffix) is what Merge is meant to do.
+func vAliased(res *ixbuf, bufs []*ixbuf) int {
+	sz := unsafe.Sizeof(slot{})
+	for _, oc := range res.chunks {
+		if len(oc) == 0 {
+			continue
+		}
+		olo := uintptr(unsafe.Pointer(&oc[0]))
+		ohi := olo + uintptr(len(oc))*sz
+		for j, ib := range bufs {
+			for _, ic := range ib.chunks {
+				if cap(ic) == 0 {
+					continue
+				}
+				full := ic[:cap(ic)]
+				ilo := uintptr(unsafe.Pointer(&full[0]))
+				ihi := ilo + uintptr(cap(ic))*sz
+				slo := ilo + uintptr(len(ic))*sz // spare capacity of the input chunk: [slo, ihi)
+				if olo < ihi && slo < ohi {
+					return j
+				}
+			}
+		}
+	}
+	return -1
+}
+
+// vAltBuf builds a buffer of valid ops w.r.t. st (which it updates); keys of buffer index j of the mode.
+func vAltBuf(mode string, r *rand.Rand, j, nops int, st map[string]uint64, nextOff *uint64) (*ixbuf, map[string]vchg, bool) {
+	ib := &ixbuf{}
+	exp := map[string]vchg{}
+	ok := true
+	for i := 0; i < nops; i++ {
+		k := vKeyOf(mode, r, j, i)
+		cur, present := st[k]
+		var c vchg
+		switch {
+		case !present:
+			c = vchg{'a', *nextOff}
+			*nextOff++
+			st[k] = c.off
+		case r.Intn(5) < 3:
+			c = vchg{'u', *nextOff}
+			*nextOff++
+			st[k] = c.off
+		default:
+			c = vchg{'d', cur}
+			delete(st, k)
+		}
+		if lib.Catch(func() { ib.Insert(k, vEnc(c.flag, c.off)) }) != "" {
+			return ib, exp, false
+		}
+		var ok1 bool
+		exp[k], ok1 = vFold(exp[k], c)
+		ok = ok && ok1
+	}
+	return ib, exp, ok
+}
+
 func TestVerifC11Merge(t *testing.T) {
 	log.SetOutput(io.Discard) // Combine logs before panicking on an invalid pair
 	tr := lib.Open()
@@ -338,7 +402,9 @@ func TestVerifC11Merge(t *testing.T) {
 		}
 
 		bufs := make([]*ixbuf, nbuf)
-		exps := make([]map[string]vchg, nbuf) // per buffer: expected key -> change (reference fold of its ops)
+		exps := make([]map[string]vchg, nbuf)           // per buffer: expected key -> change (reference fold of its ops)
+		stateAfter := make([]map[string]uint64, nbuf+1) // state of the world after the first j buffers
+		stateAfter[0] = base
 		aborted := false
 		total := 0
 		for j := 0; j < nbuf && !aborted; j++ {
@@ -435,6 +501,10 @@ func TestVerifC11Merge(t *testing.T) {
 			bufs[j] = ib
 			exps[j] = exp
 			total += int(ib.size)
+			stateAfter[j+1] = map[string]uint64{}
+			for k, v := range state {
+				stateAfter[j+1][k] = v
+			}
 		}
 		if aborted {
 			continue
@@ -583,6 +653,103 @@ func TestVerifC11Merge(t *testing.T) {
 		}
 		if bad != "" {
 			tr.Fail("merge-not-sequential", fmt.Sprintf("applying the result of %s: %s; result %s", q.String(), bad, vSlotsStr(got)))
+		}
+
+		// ---- persistence: results of earlier merges and all inputs stay intact when some of the same
+		// inputs take part in later merges with other partners (Merge is immutable persistent)
+		if nbuf < 2 {
+			continue
+		}
+		type vres struct {
+			ib   *ixbuf
+			snap vsnap
+			q    string
+		}
+		earlier := []vres{{res, vSnapshot(res), q.String()}}
+		allIn := append([]*ixbuf(nil), bufs...)
+		allSnaps := append([]vsnap(nil), snaps...)
+		aliased := vAliased(res, bufs)
+		if aliased >= 0 {
+			tr.Count("merge:result-aliases-input")
+		}
+		nalt := 1 + r.Intn(2)
+		for a := 0; a < nalt; a++ {
+			// keep the first `cut` inputs, replace the rest by fresh buffers
+			cut := 1 + r.Intn(nbuf)
+			if aliased >= 0 && a == 0 {
+				cut = aliased + 1 + r.Intn(nbuf-aliased)
+			}
+			st := map[string]uint64{}
+			for k, v := range stateAfter[cut] {
+				st[k] = v
+			}
+			ins := append([]*ixbuf(nil), bufs[:cut]...)
+			inExps := append([]map[string]vchg(nil), exps[:cut]...)
+			ok := true
+			for ti, nt := 0, 1+r.Intn(3); ti < nt; ti++ {
+				jj := nbuf + r.Intn(2) // the alternative tails interleave among themselves
+				if r.Intn(3) == 0 {
+					jj = r.Intn(nbuf + 1)
+				}
+				ib, exp, ok1 := vAltBuf(mode, r, jj, vSizes[r.Intn(12)], st, &nextOff)
+				ok = ok && ok1
+				ins = append(ins, ib)
+				inExps = append(inExps, exp)
+				allIn = append(allIn, ib)
+				allSnaps = append(allSnaps, vSnapshot(ib))
+			}
+			if !ok {
+				tr.Fail("insert-panic", "alternative tail buffer could not be built for "+q.String())
+				break
+			}
+			var q2 strings.Builder
+			q2.WriteString("merge")
+			for _, ib := range ins {
+				q2.WriteByte(' ')
+				q2.WriteString(vBufStr(ib))
+			}
+			var res2 *ixbuf
+			msg := lib.Catch(func() { res2 = Merge(ins...) })
+			tr.Count("persist:remerge")
+			for j, ib := range allIn {
+				if !allSnaps[j].same(ib) {
+					tr.Fail("merge-input-mutated", fmt.Sprintf("after re-merge %s an input of an earlier merge is now %s", q2.String(), vBufStr(ib)))
+					allSnaps[j] = vSnapshot(ib)
+				}
+			}
+			for i := range earlier {
+				if !earlier[i].snap.same(earlier[i].ib) {
+					tr.Fail("merge-result-mutated", fmt.Sprintf("result of %s changed to %s after the later %s", earlier[i].q, vBufStr(earlier[i].ib), q2.String()))
+					earlier[i].snap = vSnapshot(earlier[i].ib)
+				}
+			}
+			if msg != "" {
+				tr.Q(q2.String(), "!panic")
+				tr.Fail("merge-panic", fmt.Sprintf("Merge panicked (%s) on valid input: %s", msg, q2.String()))
+				break
+			}
+			tr.Q(q2.String(), vBufStr(res2)+" flat=t")
+			if u, s := vStructure(res2); u != "" || s != "" {
+				tr.Fail("merge-unsorted", fmt.Sprintf("%s %s in result %s of %s", u, s, vBufStr(res2), q2.String()))
+			}
+			want := map[string]vchg{}
+			okf := true
+			for j := range ins {
+				for _, sl := range vExpected(inExps[j]) {
+					var ok1 bool
+					want[sl.key], ok1 = vFold(want[sl.key], inExps[j][sl.key])
+					okf = okf && ok1
+				}
+			}
+			if !okf {
+				tr.Fail("merge-not-sequential", "generator produced an invalid layer stack: "+q2.String())
+			} else if !vEqSlots(vExpected(want), vFlat(res2)) {
+				tr.Fail("merge-not-sequential", fmt.Sprintf("%s gives %s, per-key fold of the inputs gives %s", q2.String(), vSlotsStr(vFlat(res2)), vSlotsStr(vExpected(want))))
+			}
+			if vAliased(res2, ins) >= 0 {
+				tr.Count("merge:result-aliases-input")
+			}
+			earlier = append(earlier, vres{res2, vSnapshot(res2), q2.String()})
 		}
 	}
 }
